@@ -163,6 +163,8 @@ impl DBM {
                     VALUES (?1, ?2, ?3, ?4, ?5)",
                 params![tower_id.to_vec(), receipt.available_slots(), receipt.subscription_start(), receipt.subscription_expiry(), receipt.signature()]).map_err( Error::Unknown)?;
 
+        #[cfg(feature = "verif")]
+        teos_common::verif::crash_point("store_tower_record:commit");
         tx.commit().map_err(Error::Unknown)
     }
 
@@ -322,6 +324,8 @@ impl DBM {
             "UPDATE towers SET available_slots=?1 WHERE tower_id=?2",
             params![available_slots, tower_id.to_vec()],
         )?;
+        #[cfg(feature = "verif")]
+        teos_common::verif::crash_point("store_appointment_receipt:commit");
         tx.commit()
     }
 
@@ -456,6 +460,8 @@ impl DBM {
             params![appointment.locator.to_vec(), tower_id.to_vec(),],
         )?;
 
+        #[cfg(feature = "verif")]
+        teos_common::verif::crash_point("store_pending_appointment:commit");
         tx.commit()
     }
 
@@ -502,6 +508,8 @@ impl DBM {
                 params![locator.to_vec(), tower_id.to_vec()],
             )?;
         };
+        #[cfg(feature = "verif")]
+        teos_common::verif::crash_point("delete_pending_appointment:commit");
         tx.commit()
     }
 
@@ -525,6 +533,8 @@ impl DBM {
             params![appointment.locator.to_vec(), tower_id.to_vec(),],
         )?;
 
+        #[cfg(feature = "verif")]
+        teos_common::verif::crash_point("store_invalid_appointment:commit");
         tx.commit()
     }
 
@@ -591,6 +601,8 @@ impl DBM {
             ],
         )?;
 
+        #[cfg(feature = "verif")]
+        teos_common::verif::crash_point("store_misbehaving_proof:commit");
         tx.commit()
     }
 
